@@ -18,6 +18,9 @@ func main() {
 	if len(os.Args) > 1 && os.Args[1] == "replay" {
 		os.Exit(replay(os.Args[2:]))
 	}
+	if len(os.Args) > 1 && os.Args[1] == "ssa" {
+		os.Exit(dumpSSA(os.Args[2:]))
+	}
 	property := flag.String("property", "", "property id (C01..C18)")
 	tier := flag.String("tier", "", "quick or thorough (default: $VERIF_TIER or quick)")
 	repo := flag.String("repo", "/repo", "repository root to analyse")
